@@ -25,8 +25,15 @@ pub struct Single {}
 pub struct Multi { pub jobs: Vec<Arc<Single>> }
 pub enum Job { Single(Arc<Single>), Multi(Arc<Multi>) }
 pub struct Actor { pub id: u8 }
-pub struct Tour { pub job_activities: usize }
-impl Tour { pub fn job_activity_count(&self) -> usize { self.job_activities } }
+/// the tour's counters as the real Tour offers them (related by the representation invariant proved in unit U14a:
+/// 1 <= jobs <= job activities when there is any, total = job activities + start (+ end))
+pub struct Tour { pub job_activities: usize, pub jobs: usize, pub closed: bool }
+impl Tour {
+    pub fn job_activity_count(&self) -> usize { self.job_activities }
+    pub fn job_count(&self) -> usize { self.jobs }
+    pub fn total(&self) -> usize { self.job_activities + if self.closed { 2 } else { 1 } }
+    pub fn has_jobs(&self) -> bool { self.jobs > 0 }
+}
 pub struct Route { pub actor: Arc<Actor>, pub tour: Tour }
 pub struct RouteState { pub total_distance: Option<Distance>, pub total_duration: Option<Duration> }
 impl RouteState {
@@ -79,7 +86,7 @@ mod h {
     #[allow(static_mut_refs)]
     fn t() -> Float { let v: u8 = kani::any(); kani::assume(v <= unsafe { RANGE }); v as Float }
     fn rc(job_activities: usize, dist: Option<Float>, dur: Option<Float>) -> RouteContext {
-        RouteContext { route: Route { actor: Arc::new(Actor { id: 0 }), tour: Tour { job_activities } }, state: RouteState { total_distance: dist, total_duration: dur } }
+        RouteContext { route: Route { actor: Arc::new(Actor { id: 0 }), tour: Tour { job_activities, jobs: { let j: usize = kani::any(); kani::assume(j <= job_activities && (j > 0 || job_activities == 0)); j }, closed: kani::any() } }, state: RouteState { total_distance: dist, total_duration: dur } }
     }
 
     /// C01 (tour size limit): a job is accepted for a tour iff the tour's job activities plus the job's do not exceed the
